@@ -24,9 +24,14 @@ func init() {
 
 // delegate runs another property's checker and re-labels the obligations of one of its rules.
 func delegate(p *Prog, r *Report, prop string, run func(*Prog, *Report), from, to string) {
-	sub := newReport(prop, r.Tier)
-	sub.curCfg = r.curCfg
-	run(p, sub)
+	key := "delegate:" + prop + ":" + r.curCfg
+	sub, _ := p.memo[key].(*Report)
+	if sub == nil {
+		sub = newReport(prop, r.Tier)
+		sub.curCfg = r.curCfg
+		run(p, sub)
+		p.memo[key] = sub
+	}
 	for _, o := range sub.Obs {
 		if o.Rule != from {
 			continue
@@ -62,7 +67,7 @@ func checkC19(p *Prog, r *Report) {
 		e := c.Entry()
 		ok := false
 		why := "the first statement is not the test fecEncoder == nil"
-		if ct := c.CondTerm(e); ct != nil && ct.Key() == want.Key() && len(e.Nodes) == 1 && len(e.Succs) == 2 {
+		if ct := c.CondTerm(e); ct != nil && (ct.Key() == want.Key() || normTerm(p.ExpandHelpers(ct)).Key() == want.Key()) && len(e.Nodes) == 1 && len(e.Succs) == 2 {
 			// the true branch returns a refusal
 			tb := e.Succs[0]
 			for _, n := range tb.Nodes {
@@ -468,7 +473,7 @@ func checkC19(p *Prog, r *Report) {
 				return true
 			})
 		}
-		r.check(okAll && nStore >= 2, "C19.O8", "(*UDPSession)", "-", "stores to the handler slot", fmt.Sprintf("%d stores, all OOBCallBackType", nStore), why)
+		r.check(okAll && nStore >= 1, "C19.O8", "(*UDPSession)", "-", "stores to the handler slot", fmt.Sprintf("%d stores, all OOBCallBackType", nStore), why)
 		r.check(okAll && nAssert >= 1, "C19.O8", "(*UDPSession)", "-", "assertions on the loaded handler", fmt.Sprintf("%d assertions, all to OOBCallBackType", nAssert), "no type assertion on the loaded handler found, or "+why)
 	}
 
